@@ -539,8 +539,83 @@ pub fn c06_case(max_calls: usize) -> BoxedStrategy<Case> {
         .boxed()
 }
 
+/// many distinct template ids (70 .. 1100) defined over several calls, then data for ids from
+/// the whole range: "templates are never evicted", and no id collides with another
+pub fn many_ids_case() -> BoxedStrategy<Case> {
+    (
+        prop_oneof![Just(70usize), Just(130), Just(260), Just(520), Just(1100)],
+        any::<bool>(),
+        proptest::collection::vec((any::<u16>(), any::<u8>()), 4..=12),
+        1usize..=40,
+    )
+        .prop_map(|(n, v9, probes, per_packet)| {
+            let proto = if v9 { Proto::V9 } else { Proto::Ipfix };
+            // definition of id 256+i: two fields whose widths depend on i, so that decoding with a
+            // neighbour's template is visible
+            let def_of = |i: usize| Def {
+                kind: Kind::Plain,
+                scope_n: 0,
+                fields: vec![
+                    FieldSpec { ie: 1, len: [1u16, 2, 4, 8][i % 4], ent: None },
+                    FieldSpec { ie: 2, len: [4u16, 2, 8, 1][(i / 4) % 4], ent: None },
+                ],
+            };
+            let pkt = |body: &[u8], nsets: usize| -> Vec<u8> {
+                let mut w = W::default();
+                match proto {
+                    Proto::V9 => enc_v9_header(&mut w, nsets as u16, &[1, 2, 3, 4]),
+                    Proto::Ipfix => enc_ipfix_header(&mut w, (16 + body.len()) as u16, &[1, 2, 3]),
+                }
+                w.bytes(body);
+                w.0
+            };
+            let mut calls: Vec<Call> = vec![];
+            let mut i = 0usize;
+            while i < n {
+                let k = per_packet.min(n - i);
+                let mut body = W::default();
+                let mut nsets = 0;
+                match proto {
+                    Proto::V9 => {
+                        let mut recs = W::default();
+                        for j in i..i + k {
+                            enc_template_record(&mut recs, proto, (256 + j) as u16, &def_of(j));
+                        }
+                        enc_set(&mut body, 0, &recs.0, 0);
+                        nsets = 1;
+                    }
+                    Proto::Ipfix => {
+                        for j in i..i + k {
+                            let mut rec = W::default();
+                            enc_template_record(&mut rec, proto, (256 + j) as u16, &def_of(j));
+                            enc_set(&mut body, 2, &rec.0, 0);
+                            nsets += 1;
+                        }
+                    }
+                }
+                calls.push(Call { parser: 0, packets: vec![pkt(&body.0, nsets)] });
+                i += k;
+            }
+            // data for ids spread over the whole range (first, last, around powers of two, random)
+            let mut ids: Vec<usize> = vec![0, n - 1, 63.min(n - 1), 64.min(n - 1), 127.min(n - 1), 128.min(n - 1), 255.min(n - 1), 256.min(n - 1), 511.min(n - 1), 512.min(n - 1), 1023.min(n - 1)];
+            ids.extend(probes.iter().map(|(x, _)| *x as usize % n));
+            for (k, id) in ids.iter().enumerate() {
+                let d = def_of(*id);
+                let rl = d.min_record_len();
+                let fill = probes[k % probes.len()].1;
+                let recs: Vec<u8> = (0..2 * rl).map(|b| fill.wrapping_add(b as u8 + 1)).collect();
+                let mut body = W::default();
+                enc_set(&mut body, (256 + id) as u16, &recs, 0);
+                calls.push(Call { parser: 0, packets: vec![pkt(&body.0, 1)] });
+            }
+            Case { allowed: vec![crate::engine::DEFAULT_ALLOWED.to_vec()], calls, params: Default::default() }
+        })
+        .boxed()
+}
+
 pub fn run(ctx: &Ctx) {
     ctx.replay_findings(&oracle);
     ctx.search("two-parsers-histories", ctx.n(120_000, 10_000_000), &|| c06_case(6), &oracle);
+    ctx.search("many-template-ids-never-evicted", ctx.n(400, 8_000), &many_ids_case, &oracle);
     ctx.search("longer-histories", ctx.n(10_000, 1_000_000), &|| c06_case(14), &oracle);
 }
